@@ -91,6 +91,7 @@ type Sample struct {
 	Next        map[string]uint64 `json:"nx,omitempty"`
 	Floor       uint64            `json:"fl,omitempty"`  // largest term observed for the node before the sample was taken
 	LV          uint64            `json:"lv2,omitempty"` // log-shadow version read before the sample was taken
+	SV          uint64            `json:"sv,omitempty"`  // term/vote storage version read before the sample was taken
 	CommitFloor uint64            `json:"cfl,omitempty"`
 	ApplFloor   uint64            `json:"afl,omitempty"`
 }
